@@ -783,6 +783,8 @@ class Lib:
 
     # context managers ---------------------------------------------------
     def context_manager(self, it, mgr, node):
+        if isinstance(mgr, VRef) and mgr.classes == ('_TextSink',):
+            return (lambda: mgr), (lambda exc: False)
         if isinstance(mgr, VRef):
             cls = it.ctx.class_of(mgr)
             eci, en = it.repo.lookup_method(cls, '__enter__')
